@@ -451,6 +451,9 @@ pub fn run() {{
     exp = {
         "idx": idx, "mode": "pattern", "case": json.loads(c.key()), "bits": expected_bits, "tuples": len(dom),
         "domain_debug": [[TYPES[t].debug(v) for t, v in zip(c.types, vals)] for vals in dom],
+        # what the comparison actually looks at for string / slice literal patterns (the AsRef view of the argument)
+        "coerced_debug": [[(json.dumps(v) if c.arg_kind(i) == "litstr" else TYPES[t].debug(v))
+                           for i, (t, v) in enumerate(zip(c.types, vals))] for vals in dom],
         "pat_debug": c.expected_pat_debug() if c.simple() else None,
         "per_arg_rejections": per_arg,
         "wild_positions": [i for i, p in enumerate(c.alts[0]) if p.top == "wild"] if len(c.alts) == 1 else [],
@@ -514,7 +517,9 @@ def check_messages(exp, events):
                 return (f"mismatch report for call {call} lists positions {got_pos}, the sub-patterns rejecting the "
                         f"actual values are at {want_pos}: {text[:400]!r}")
             # each listed position carries the actual value
+            report = text[len(call):]
             for pos in want_pos:
-                if dbg[pos] not in text.split(")", 1)[1] if ")" in text else True:
+                # the value is shown as the argument's Debug, or as the Debug of its AsRef<str> view
+                if dbg[pos] not in report and exp["coerced_debug"][k][pos] not in report:
                     return f"mismatch report lacks the actual value {dbg[pos]} of input #{pos}: {text[:400]!r}"
     return None
